@@ -33,8 +33,14 @@ func VerifC04Render() {
 func VerifC04Parse() {
 	i := nd.Choice(len(corpus))
 	e := NewEngine()
+	src := corpus[i]
+	if nd.Choice(2) == 1 { // an engine configured with custom delimiters
+		q := c19Quads[nd.Choice(len(c19Quads))]
+		e.Delims(q[0], q[1], q[2], q[3])
+		src = "a" + q[0] + " n " + q[1] + q[2] + " if n " + q[3] + "x" + q[2] + " endif " + q[3]
+	}
 	nd.BeginRender()
-	_, perr := e.ParseString(corpus[i])
+	_, perr := e.ParseString(src)
 	nd.EndRender()
 	nd.Assert(perr == nil, "corpus-parses")
 	nd.Reach("C04.parse")
